@@ -266,4 +266,213 @@ theorem rootHash_nil_of_nonSig_nil (rs : List Rec) (h : nonSig rs = []) : rootHa
   | nil => rfl
   | cons a r => simp [rootHash, h, reduce]
 
+/-! ### the in-place loop computes the same root -/
+
+theorem slot_set_eq (a : List Bytes) (i : Nat) (v : Bytes) (h : i < a.length) : slot (a.set i v) i = v := by
+  simp [slot, h]
+
+theorem slot_set_ne (a : List Bytes) (i j : Nat) (v : Bytes) (h : i ≠ j) : slot (a.set i v) j = slot a j := by
+  simp [slot, List.getElem?_set, h]
+
+
+theorem levelLoop_spec (offset step n : Nat) (hstep : 0 < step) (hoff : offset < step) :
+    ∀ (fuel i : Nat) (a : List Bytes), a.length = n → i % step = 0 → n ≤ fuel + i →
+      (levelLoop H offset step n fuel i a).length = n ∧
+      ∀ m, m < n → slot (levelLoop H offset step n fuel i a) m =
+        if i ≤ m ∧ m % step = 0 ∧ m + offset < n then branch H (slot a m) (slot a (m + offset)) else slot a m := by
+  intro fuel
+  induction fuel with
+  | zero =>
+    intro i a ha _ hf
+    refine ⟨ha, ?_⟩
+    intro m hm
+    have : ¬ (i ≤ m ∧ m % step = 0 ∧ m + offset < n) := by omega
+    simp [levelLoop, this]
+  | succ f ih =>
+    intro i a ha hi hf
+    unfold levelLoop
+    by_cases hc : i + offset < n
+    · simp only [hc, ↓reduceIte]
+      have hi' : (i + step) % step = 0 := by rw [Nat.add_mod_right]; exact hi
+      obtain ⟨hl, hs⟩ := ih (i + step) (a.set i (branch H (slot a i) (slot a (i + offset)))) (by simp [ha]) hi' (by omega)
+      refine ⟨hl, ?_⟩
+      intro m hm
+      rw [hs m hm]
+      by_cases hmi : m = i
+      · subst hmi
+        have h1 : ¬ (m + step ≤ m ∧ m % step = 0 ∧ m + offset < n) := by omega
+        have h2 : (m ≤ m ∧ m % step = 0 ∧ m + offset < n) := ⟨Nat.le_refl _, hi, hc⟩
+        rw [if_neg h1, if_pos h2]
+        exact slot_set_eq a m _ (by omega)
+      · by_cases hq : i + step ≤ m ∧ m % step = 0 ∧ m + offset < n
+        · have h2 : i ≤ m ∧ m % step = 0 ∧ m + offset < n := ⟨by omega, hq.2.1, hq.2.2⟩
+          rw [if_pos hq, if_pos h2]
+          rw [slot_set_ne _ _ _ _ (Ne.symm hmi), slot_set_ne _ _ _ _ (by omega)]
+        · rw [if_neg hq]
+          rw [slot_set_ne _ _ _ _ (Ne.symm hmi)]
+          have h2 : ¬ (i ≤ m ∧ m % step = 0 ∧ m + offset < n) := by
+            rintro ⟨h1, h2, h3⟩
+            apply hq
+            refine ⟨?_, h2, h3⟩
+            -- m ≥ i, m ≠ i, both multiples of step
+            have : i < m := by omega
+            have hd1 := Nat.div_add_mod m step
+            have hd2 := Nat.div_add_mod i step
+            rw [h2] at hd1; rw [hi] at hd2
+            have : i / step < m / step := by
+              apply Nat.lt_of_mul_lt_mul_left (a := step)
+              omega
+            have : step * (i / step + 1) ≤ step * (m / step) := Nat.mul_le_mul_left _ this
+            rw [Nat.mul_add] at this
+            omega
+          rw [if_neg h2]
+    · simp only [hc, ↓reduceIte]
+      refine ⟨ha, ?_⟩
+      intro m hm
+      have : ¬ (i ≤ m ∧ m % step = 0 ∧ m + offset < n) := by omega
+      simp [this]
+
+theorem pairUp_length : ∀ xs : List Bytes, (pairUp H xs).length = (xs.length + 1) / 2
+  | [] => rfl
+  | [_] => by simp [pairUp]
+  | a :: b :: rest => by
+    simp only [pairUp, List.length_cons, pairUp_length rest]
+    omega
+
+theorem slot_nil (k : Nat) : slot [] k = [] := by simp [slot]
+theorem slot_cons_zero (a : Bytes) (l : List Bytes) : slot (a :: l) 0 = a := by simp [slot]
+theorem slot_cons_succ (a : Bytes) (l : List Bytes) (k : Nat) : slot (a :: l) (k + 1) = slot l k := by simp [slot]
+
+theorem slot_pairUp : ∀ (xs : List Bytes) (k : Nat), slot (pairUp H xs) k =
+    if 2 * k + 1 < xs.length then branch H (slot xs (2 * k)) (slot xs (2 * k + 1)) else slot xs (2 * k)
+  | [], k => by simp [pairUp, slot_nil]
+  | [a], k => by
+    cases k with
+    | zero => simp [pairUp]
+    | succ k =>
+      have : ¬ (2 * (k + 1) + 1 < [a].length) := by simp
+      rw [if_neg this]
+      simp only [pairUp]
+      rw [slot_cons_succ, slot_nil, show 2 * (k + 1) = (2 * k + 1) + 1 by omega, slot_cons_succ, slot_nil]
+  | a :: b :: rest, k => by
+    cases k with
+    | zero =>
+      have : 2 * 0 + 1 < (a :: b :: rest).length := by simp
+      rw [if_pos this]
+      simp [pairUp, slot_cons_zero, slot_cons_succ]
+    | succ k =>
+      simp only [pairUp]
+      rw [slot_cons_succ, slot_pairUp rest k]
+      have e1 : 2 * (k + 1) = (2 * k + 1) + 1 := by omega
+      have e2 : 2 * (k + 1) + 1 = ((2 * k + 1) + 1) + 1 := by omega
+      have e3 : (2 * (k + 1) + 1 < (a :: b :: rest).length) ↔ (2 * k + 1 < rest.length) := by
+        simp only [List.length_cons]; omega
+      by_cases hc : 2 * k + 1 < rest.length
+      · rw [if_pos hc, if_pos (e3.mpr hc), e2, e1, slot_cons_succ, slot_cons_succ, slot_cons_succ, slot_cons_succ]
+      · rw [if_neg hc, if_neg (fun h => hc (e3.mp h)), e1, slot_cons_succ, slot_cons_succ]
+
+/-- slot `k·P` of the array holds element `k` of the live list -/
+structure Inv (n P : Nat) (a xs : List Bytes) : Prop where
+  len : a.length = n
+  idx : ∀ k, k < xs.length ↔ k * P < n
+  val : ∀ k, k * P < n → slot a (k * P) = slot xs k
+
+theorem level_step (n P : Nat) (a xs : List Bytes) (hP : 0 < P) (hinv : Inv n P a xs) :
+    Inv n (2 * P) (levelLoop H P (2 * P) n n 0 a) (pairUp H xs) := by
+  obtain ⟨hl, hs⟩ := levelLoop_spec H P (2 * P) n (by omega) (by omega) n 0 a hinv.len (by simp) (by omega)
+  refine ⟨hl, ?_, ?_⟩
+  · intro k
+    rw [pairUp_length]
+    have h1 := hinv.idx (2 * k)
+    have e : 2 * k * P = k * (2 * P) := by rw [Nat.mul_comm 2 k, Nat.mul_assoc]
+    rw [e] at h1
+    constructor
+    · intro h; exact h1.mp (by omega)
+    · intro h; have := h1.mpr h; omega
+  · intro k hk
+    have e : 2 * k * P = k * (2 * P) := by rw [Nat.mul_comm 2 k, Nat.mul_assoc]
+    have e' : (2 * k + 1) * P = k * (2 * P) + P := by rw [Nat.add_mul, e, Nat.one_mul]
+    rw [hs _ hk, slot_pairUp]
+    have hmod : k * (2 * P) % (2 * P) = 0 := Nat.mul_mod_left _ _
+    by_cases hc : k * (2 * P) + P < n
+    · have c1 : 0 ≤ k * (2 * P) ∧ k * (2 * P) % (2 * P) = 0 ∧ k * (2 * P) + P < n := ⟨Nat.zero_le _, hmod, hc⟩
+      have c2 : 2 * k + 1 < xs.length := (hinv.idx (2 * k + 1)).mpr (by rw [e']; exact hc)
+      rw [if_pos c1, if_pos c2]
+      have v1 := hinv.val (2 * k) (by rw [e]; exact hk)
+      have v2 := hinv.val (2 * k + 1) (by rw [e']; exact hc)
+      rw [e] at v1; rw [e'] at v2
+      rw [v1, v2]
+    · have c1 : ¬ (0 ≤ k * (2 * P) ∧ k * (2 * P) % (2 * P) = 0 ∧ k * (2 * P) + P < n) := fun h => hc h.2.2
+      have c2 : ¬ (2 * k + 1 < xs.length) := fun h => hc (by have := (hinv.idx (2 * k + 1)).mp h; rw [e'] at this; exact this)
+      rw [if_neg c1, if_neg c2]
+      have v1 := hinv.val (2 * k) (by rw [e]; exact hk)
+      rw [e] at v1
+      exact v1
+
+theorem levelsLoop_succ (n f level : Nat) (a : List Bytes) :
+    levelsLoop H n (f + 1) level a =
+      if 2 <<< level / 2 ≥ n then a
+      else levelsLoop H n f (level + 1) (levelLoop H (2 <<< level / 2) (2 <<< level) n n 0 a) := rfl
+
+theorem shift_eq (level : Nat) : 2 <<< level = 2 * 2 ^ level := by
+  rw [Nat.shiftLeft_eq]
+
+/-- the in-place loop and the list reduction walk the levels in lock step -/
+theorem levels_spec (n : Nat) : ∀ (fuelA fuelB level : Nat) (a xs : List Bytes),
+    Inv n (2 ^ level) a xs → xs ≠ [] → xs.length ≤ fuelA + 1 → xs.length ≤ fuelB + 1 →
+    slot (levelsLoop H n fuelA level a) 0 = reduce H fuelB xs := by
+  intro fuelA
+  induction fuelA with
+  | zero =>
+    intro fuelB level a xs hinv hne hA _
+    match xs, hne, hA with
+    | [x], _, _ =>
+      have := hinv.val 0 (by have := (hinv.idx 0).mp (by simp); simpa using this)
+      simp only [Nat.zero_mul] at this
+      rw [levelsLoop, this, slot_cons_zero]
+      cases fuelB <;> simp [reduce]
+    | _ :: _ :: _, _, h => simp at h
+  | succ f ih =>
+    intro fuelB level a xs hinv hne hA hB
+    have hP : 0 < 2 ^ level := Nat.two_pow_pos level
+    match xs, hne, hA, hB with
+    | [x], _, _, _ =>
+      have h0 : 0 * 2 ^ level < n := (hinv.idx 0).mp (by simp)
+      have h1 : ¬ (1 * 2 ^ level < n) := fun h => by have := (hinv.idx 1).mpr h; simp at this
+      have v := hinv.val 0 h0
+      simp only [Nat.zero_mul] at v
+      have : 2 <<< level / 2 ≥ n := by rw [shift_eq]; omega
+      rw [levelsLoop_succ, if_pos this, v, slot_cons_zero]
+      cases fuelB <;> simp [reduce]
+    | x :: y :: rest, _, hA, hB =>
+      have h1 : 1 * 2 ^ level < n := (hinv.idx 1).mp (by simp)
+      have hlt : ¬ (2 <<< level / 2 ≥ n) := by rw [shift_eq]; omega
+      have hoff : 2 <<< level / 2 = 2 ^ level := by rw [shift_eq]; omega
+      rw [levelsLoop_succ, if_neg hlt, hoff, shift_eq]
+      have hinv' := level_step H n (2 ^ level) a (x :: y :: rest) hP hinv
+      have e : 2 * 2 ^ level = 2 ^ (level + 1) := by rw [Nat.pow_succ, Nat.mul_comm]
+      have hinv'' : Inv n (2 ^ (level + 1)) (levelLoop H (2 ^ level) (2 * 2 ^ level) n n 0 a) (pairUp H (x :: y :: rest)) := by
+        rw [← e]; exact hinv'
+      have hlen := pairUp_length H (x :: y :: rest)
+      simp only [List.length_cons] at hlen hA hB
+      match fuelB, hB with
+      | g + 1, hB =>
+        have hne' : pairUp H (x :: y :: rest) ≠ [] := by simp [pairUp]
+        rw [ih g (level + 1) _ _ hinv'' hne' (by rw [hlen]; omega) (by rw [hlen]; omega)]
+        simp [reduce]
+
+theorem rootHashInPlace_eq (rs : List Rec) : rootHashInPlace H rs = rootHash H rs := by
+  cases rs with
+  | nil => rfl
+  | cons first rest =>
+    simp only [rootHashInPlace, rootHash]
+    generalize (nonSig (first :: rest)).map (perTlv H first.recordBytes) = leaves
+    by_cases he : leaves = []
+    · subst he; rfl
+    · have hne : leaves.isEmpty = false := by simpa using he
+      simp only [hne, Bool.false_eq_true, ↓reduceIte]
+      have hinv : Inv leaves.length (2 ^ 0) leaves leaves :=
+        ⟨rfl, fun k => by simp, fun k _ => by simp⟩
+      exact levels_spec H leaves.length leaves.length leaves.length 0 leaves leaves hinv he (by omega) (by omega)
+
 end Ldk.Merkle
